@@ -428,6 +428,14 @@ def linform(node, atom=default_atom, env: Optional[dict] = None) -> Dict[str, Fr
         if isinstance(n, ast.Name) and env and n.id in env:
             add(env[n.id], scale)
             return
+        if isinstance(n, ast.BinOp) and isinstance(n.op, (ast.Mult, ast.Div)):
+            # pull a leading sign out of a product: (-a) / b  ==  -(a / b)
+            if isinstance(n.left, ast.UnaryOp) and isinstance(n.left.op, ast.USub):
+                rec(ast.BinOp(left=n.left.operand, op=n.op, right=n.right), -scale)
+                return
+            if isinstance(n.right, ast.UnaryOp) and isinstance(n.right.op, ast.USub):
+                rec(ast.BinOp(left=n.left, op=n.op, right=n.right.operand), -scale)
+                return
         add({atom(n): Fraction(1)}, scale)
 
     rec(node, Fraction(1))
